@@ -616,6 +616,12 @@ class Intrinsics:
             return b ** e
         return theory.ipow(as_z3int(b), as_z3int(e))
 
+    def s_ghost(self, P, name, *args):
+        """uninterpreted ghost function (e.g. the next RNG draw); int arguments -> int"""
+        zs = [as_z3int(a) for a in args]
+        f = z3.Function(f'ghost_{name}', *([z3.IntSort()] * (len(zs) + 1)))
+        return f(*zs)
+
     def s_implies(self, P, a, b):
         a, b = P.truthy(a), P.truthy(b)
         if a is False or b is True:
